@@ -67,7 +67,20 @@ func (r *Run) Check(rule, construct string, pos token.Pos, ok bool, detail strin
 	if r.Prog != nil && r.Prog.Variant.Name != DefaultVariant.Name {
 		variant = r.Prog.Variant.Name
 	}
-	o := Obl{Rule: rule, Construct: construct, Pos: ps, OK: ok, Detail: detail, Variant: variant}
+	r.add(Obl{Rule: rule, Construct: construct, Pos: ps, OK: ok, Detail: detail, Variant: variant})
+}
+
+// CheckAt records an obligation whose position is already rendered (obligations re-filed from a shared sub-run).
+func (r *Run) CheckAt(rule, construct, pos string, ok bool, detail string) {
+	variant := ""
+	if r.Prog != nil && r.Prog.Variant.Name != DefaultVariant.Name {
+		variant = r.Prog.Variant.Name
+	}
+	r.add(Obl{Rule: rule, Construct: construct, Pos: pos, OK: ok, Detail: detail, Variant: variant})
+}
+
+func (r *Run) add(o Obl) {
+	ok := o.OK
 	// The same obligation may be evaluated under several build variants; keep the worst.
 	if i, dup := r.seen[o.Key()]; dup {
 		if r.Obls[i].OK && !ok {
